@@ -126,7 +126,7 @@ def run(prop, tier, seed):
     api_stage(v, prop, d, drv, seed, tier)
     real_engine(v, prop, d, drv, seed, tier)
     if prop == "C13":
-        stop_stop(v, d, drv, seed)
+        stop_stop(v, d, drv, seed, tier)
         stop_at_popped(v, d, drv, seed, tier)
         burst(v, d, drv, seed, tier)
         start_stop_start(v, d, drv, seed)
@@ -257,7 +257,7 @@ def real_engine(v, prop, d, drv, seed, tier):
     log("real plot engine behind the keeper: %d scenarios in %.1fs, %d accepted, %d real plots started" % (len(scen), w, len(acc), plots))
 
 
-def stop_stop(v, d, drv, seed):
+def stop_stop(v, d, drv, seed, tier="quick"):
     """C13: StopWS of the space being plotted (real engine) and a stop of the keeper arrive together: the keeper asks
     the engine to stop the plot on both paths.  PlotStop.tla: with the repaired close rule nothing panics and every
     StopPlot returns; with the pinned rule TLC finds the double close, which is this schedule."""
@@ -267,6 +267,24 @@ def stop_stop(v, d, drv, seed):
     v.cov["plotstop_pinned_close_rule_refuted"] = bool(ma["violated"])
     if not ma["violated"]:
         raise vlib.Machinery("PlotStop.tla with CloseRule=always no longer shows the double close")
+    if tier == "thorough":
+        # unbounded in the number of callers: the TLA+ proof system discharges NoPanic for the repaired rule
+        import subprocess, shutil
+        pd = os.path.join(d, "tlaps")
+        os.makedirs(pd, exist_ok=True)
+        for f in ("PlotStop.tla", "PlotStopProof.tla"):
+            shutil.copy(os.path.join(d, f), pd)
+        try:
+            r = subprocess.run(["tlapm", "--threads", str(min(vlib.NCPU, 8)), "PlotStopProof.tla"], cwd=pd, stdout=subprocess.PIPE, stderr=subprocess.STDOUT, timeout=600)
+            out = r.stdout.decode("utf-8", "replace")
+        except Exception as ex:
+            raise vlib.Machinery("tlapm could not be run on PlotStopProof.tla: %s" % ex)
+        import re
+        m = re.search(r"All (\d+) obligations proved", out)
+        if not m:
+            raise vlib.Machinery("tlapm did not prove PlotStopProof.tla:\n" + out[-1500:])
+        v.cov["plotstop_tlaps_obligations_proved"] = int(m.group(1))
+        log("TLAPS: PlotStopProof.tla - %s obligations proved (NoPanic for any number of callers)" % m.group(1))
     sc = [dict(sc=9200 + i, seed=seed * 31 + i, steps=[], opt=dict(mode="stopstop", realdb=True, spaces=3, init={})) for i in range(3)]
     sf, tf = os.path.join(d, "ss.json"), os.path.join(d, "ss.ndjson")
     json.dump(sc, open(sf, "w"))
